@@ -5,6 +5,7 @@ import (
 	"fmt"
 	"image"
 	"image/color"
+	"os"
 	"sort"
 	"strings"
 
@@ -572,7 +573,7 @@ func init() {
 			if ctx.Tier == "thorough" {
 				return 600000
 			}
-			return 16000
+			return 150000
 		},
 		Run: c18Run,
 		Describe: func(tier string, s *report.Stats, cases int) Evidence {
@@ -599,6 +600,7 @@ func init() {
 					"policies":                        map[string]int64{"pct": s.Counters["policy_pct"], "chaos": s.Counters["policy_chaos"]},
 					"preemptions_by_package":          s.SortedCounters("preempt_in_"),
 					"yield_sites_in_the_copy":         sites,
+					"instrumentation_mode":            os.Getenv("IVGSIM_INSTRUMENTATION"),
 					"files_left_uninstrumented":       skipped,
 					"package_level_variables_watched": names,
 					"reach_probes": map[string]int64{
